@@ -304,12 +304,15 @@ TraceEnd ==
                                             THEN "ControllerError" ELSE "?"
                        [] OTHER -> "?"
            obsStats == {ln.stats[i] : i \in 1 .. Len(ln.stats)}
-           PT == {"niter", "restart", "dt", "u"}
+           PT == PerStepTypes
        IN /\ viol' = viol
                 \cup V(ln.exc = expexc, "conf.outcome")
                 \cup V(ln.u0_unchanged, "val.caller_u0_unchanged")
                 \cup V(ln.exc # "none" \/ ln.ret = ln.carry, "val.return_is_last_uend")
                 \cup V(ln.exc # "none" \/ ln.logged_unchanged, "val.logged_unchanged")
+                \* every recorded amount of work equals the number of right-hand-side evaluations the step's problem object
+                \* actually received between the step's start and end callbacks (counted independently of the work counters)
+                \cup V(ln.exc # "none" \/ ~ ln.has_stats \/ ln.work_ok, "stats.work_counters")
                 \cup V(ln.exc # "none" \/ ~ ln.has_stats \/ obsStats = stats, "stats.entries")
                 \cup V(ln.exc # "none" \/ ~ ln.has_stats \/ \A T \in PT : OnePerAccepted(obsStats, T, acc), "stats.one_per_step")
                 \cup V(ln.exc # "none" \/ ~ ln.has_stats \/ NiterRecorded(obsStats, acc), "stats.niter")
